@@ -11,9 +11,6 @@ def f32Key (bits : UInt32) : Int :=
   let mag : Int := (bits.toNat % 2 ^ 31 : Nat)
   if bits.toNat ≥ 2 ^ 31 then -mag else mag
 
-def f32IsNaN (bits : UInt32) : Bool :=
-  bits.toNat % 2 ^ 31 > 0x7F800000
-
 /-- Lexicographic comparison of byte strings (`Vec<u8>: Ord`). -/
 def bytesLe : Bytes → Bytes → Bool
   | [], _ => true
